@@ -18,6 +18,6 @@ fi
 rsync -a --exclude target --exclude Cargo.toml --exclude .cargo /verif/harness/ "$d/harness/"
 git -C "$d/repo" checkout -q -- . 
 [ -f "$d/repo/Cargo.lock" ] || cp /repo/Cargo.lock "$d/repo/Cargo.lock"
-if [ "$patch" != "-" ]; then git -C "$d/repo" apply "$patch" 2>/dev/null || git -C "$d/repo" apply --3way "$patch" || ( cd "$d/repo" && patch -p1 -F3 < "$patch" ) || { echo "patch does not apply"; exit 2; }; fi
+if [ "$patch" != "-" ]; then git -C "$d/repo" apply "$patch" 2>/dev/null || ( cd "$d/repo" && patch -s -p1 -F3 < "$patch" ) || { echo "patch does not apply"; exit 2; }; fi
 cd /verif
 for c in "$@"; do GV_SCRATCH="$d" ./check "$c" --tier "${TIER:-quick}" 2>&1 | tail -4; done
